@@ -53,3 +53,22 @@ Print Assumptions C05_judge_yes_sound.
 Example C05_nonvacuous : check_graph_cert 2 1 [[1];[1]] tri [0;1]%nat [2]%nat = true /\
                          check_graph_cert 2 1 [[1];[0]] tri [0;1]%nat [2]%nat = false.
 Proof. split; vm_compute; reflexivity. Qed.
+
+(* ---------- cmr-graphic [-t] -G: the written graph file is a certificate (CliModel.judge_cligraphout) ---------- *)
+From Cmr Require TextModel CliModel CliProofs.
+Theorem C05_tool_graph_output_judge_sound : forall rec signed co infmt inb rc hasout outb rest m n M,
+  CliProofs.cligraphout_input rec = Some ((signed, co, infmt, inb, rc, hasout, outb), rest) ->
+  CliModel.judge_cligraphout rec = 0 ->
+  TextModel.parse infmt 1 inb = TextModel.TOk m n M ->
+  (if signed then is_ternary M else is_binary M) = true ->
+  hasout = true ->
+  rc = 0 /\
+  exists G rowedges coledges,
+    CliModel.edgelist_graph outb = Some (G, rowedges, coledges) /\
+    List.length rowedges = m /\ List.length coledges = n /\
+    let '(f, c, MM) := if co then (coledges, rowedges, transpose m n M) else (rowedges, coledges, M) in
+    is_spanning_forest G f = true /\
+    exists T C, lookup_all (g_edges G) f = Some T /\ lookup_all (g_edges G) c = Some C /\
+                rep_matrix signed T C = MM.
+Proof. exact CliProofs.judge_cligraphout_sound. Qed.
+Print Assumptions C05_tool_graph_output_judge_sound.
